@@ -99,7 +99,7 @@ class Check:
         poses = poses + extra
         dips = [-60.0, 0.0, 45.0, 66.0, 80.0] if tier == 'quick' else [-80.0, -60.0, -30.0, 0.0, 25.0, 45.0, 60.0, 66.0, 80.0]
         cons = []
-        for k, vs in (('oleq', [{'frame': 'NED'}, {'frame': 'ENU'}]), ('flae', [{'method': 'symbolic'}, {'method': 'eig'}, {'method': 'newton'}]),
+        for k, vs in (('oleq', [{'frame': 'NED'}, {'frame': 'ENU'}, {'frame': 'NED', 'weights': [100.0, 100.0]}, {'frame': 'ENU', 'weights': [1.0, 25.0]}]), ('flae', [{'method': 'symbolic'}, {'method': 'eig'}, {'method': 'newton'}]),
                       ('tilt', [{'representation': 'quaternion'}, {'representation': 'rotmat'}]), ('tilt_acc', [{'representation': 'angles'}]),
                       ('saam', [{}]), ('famc', [{}]), ('fqa', [{}]), ('quest', [{}, {'weights': [1.2, 0.6]}]), ('davenport', [{}]),
                       ('triad', [{'frame': 'NED', 'representation': 'quaternion'}, {'frame': 'ENU', 'representation': 'rotmat'}]), ('aqua_alg', [{}])):
